@@ -416,6 +416,8 @@ def fabric_allowed(sc):
         if p.index(e[0]) < len(p) - 1 - p[::-1].index(e[1]):
           ok0.append(p)
     return {"q0": ok0, "q1": [[e[0], e[1]]]}
+  if script == "two-kinds-one-publication":
+    return {"q0": [[e[0]]], "q1": [[e[0]]]}      # q0 by the fifo thread, q1 by the lifo thread, once each
   raise KeyError(script)
 
 
